@@ -261,8 +261,14 @@ def run(tier, seed, ck: Check):
         if c["limit"] and c["lines"]:
             runs.append({"id": idx, "lines": [list(l) for l in c["lines"]], "conv": [list(l) for l in conv]})
         if not ok:
-            inline_amp = any("!" in l and i + 1 < len(c["lines"]) and len(c["lines"][i + 1]) >= 6 and c["lines"][i + 1][5] not in " 0"
-                             for i, l in enumerate(c["lines"]) if l[:1] not in "cC*!")
+            def continued_next(i):
+                # the next line that is neither blank nor a comment line is a continuation line
+                for nl in c["lines"][i + 1:]:
+                    if not nl.strip() or nl[:1] in "cC*!":
+                        continue
+                    return len(nl) >= 6 and nl[5] not in " 0"
+                return False
+            inline_amp = any("!" in l and continued_next(i) for i, l in enumerate(c["lines"]) if l[:1] not in "cC*!")
             if "InlineAmp" in fdev and inline_amp and ck.known_finding("C14-F1"):
                 continue
             ck.violation("fixed-reader", {"lines": c["lines"], "limit": c["limit"]}, expected=c02.expected_items(c["logical"]), observed=yields,
